@@ -54,6 +54,13 @@ const CHANNELS: [(u8, &str); 6] = [
 
 fn decode(h: &MsgHeader) -> Result<nexrad_decode::messages::message_header::MessageHeader, String> {
     let b = h.encode();
+    // a quarter of the headers arrive through a reader that returns short reads (a socket, a
+    // chained reader, a BufReader refill inside the header): same fields, by the same offsets
+    let key = crate::rng::fnv(&b);
+    if key % 4 == 0 {
+        let mut rd = mon::DribbleReader::new(std::io::Cursor::new(&b[..]), key);
+        return decode_message_header(&mut rd).map_err(|e| format!("{e:?} (through a reader that returns short reads)"));
+    }
     decode_message_header(&mut &b[..]).map_err(|e| format!("{e:?}"))
 }
 
